@@ -48,6 +48,7 @@ class Repo:
         self.split_locals = []
         self.desugared = []
         self._desugar()
+        self._named_tuples()
         self._dict_views()
         self._inline_helpers()
         self._split_conditional_locals()
@@ -66,6 +67,94 @@ class Repo:
         self._expand_properties()
 
     # ---- normalisation
+    def _named_tuples(self):
+        """NORM: named tuples are tuples.  `T = namedtuple("T", fields, defaults=...)` / `class T(NamedTuple)` defined at
+        module level: inside that module a construction `T(a, b, ...)` (positional / keyword, defaults filled in) becomes
+        the tuple display `(a, b, ...)`, and an attribute read `<expr>.field` on anything but `self` / a module becomes
+        `<expr>[k]`.  Done only when the field names are not attributes of anything else the module reads that way."""
+        import copy
+        for rel, m in self.modules.items():
+            types = {}
+            for n in m.tree.body:
+                if isinstance(n, ast.Assign) and len(n.targets) == 1 and isinstance(n.targets[0], ast.Name) \
+                        and isinstance(n.value, ast.Call) and getattr(n.value.func, "id", getattr(n.value.func, "attr", None)) == "namedtuple" \
+                        and len(n.value.args) >= 2:
+                    f = n.value.args[1]
+                    fields = None
+                    if isinstance(f, (ast.Tuple, ast.List)) and all(isinstance(x, ast.Constant) and isinstance(x.value, str) for x in f.elts):
+                        fields = [x.value for x in f.elts]
+                    elif isinstance(f, ast.Constant) and isinstance(f.value, str):
+                        fields = f.value.replace(",", " ").split()
+                    if fields is None:
+                        continue
+                    defaults = []
+                    for k in n.value.keywords:
+                        if k.arg == "defaults" and isinstance(k.value, (ast.Tuple, ast.List)):
+                            defaults = list(k.value.elts)
+                    types[n.targets[0].id] = (fields, dict(zip(fields[len(fields) - len(defaults):], defaults)))
+                elif isinstance(n, ast.ClassDef) and any(getattr(b, "id", getattr(b, "attr", None)) == "NamedTuple" for b in n.bases):
+                    fields, defaults, ok = [], {}, True
+                    for b in n.body:
+                        if isinstance(b, ast.AnnAssign) and isinstance(b.target, ast.Name):
+                            fields.append(b.target.id)
+                            if b.value is not None:
+                                defaults[b.target.id] = b.value
+                        elif isinstance(b, ast.Assign) and len(b.targets) == 1 and isinstance(b.targets[0], ast.Name):
+                            fields.append(b.targets[0].id)      # annotation already removed by _desugar
+                            defaults[b.targets[0].id] = b.value
+                        elif isinstance(b, ast.Expr) and isinstance(b.value, ast.Constant):
+                            continue
+                        else:
+                            ok = False
+                    if ok and fields:
+                        types[n.name] = (fields, defaults)
+            if not types:
+                continue
+            allfields = {}
+            for tname, (fields, _) in types.items():
+                for k, f in enumerate(fields):
+                    allfields.setdefault(f, set()).add(k)
+            unique = {f: next(iter(ks)) for f, ks in allfields.items() if len(ks) == 1}
+            modnames = {a.asname or a.name.split(".")[0] for n in m.tree.body if isinstance(n, (ast.Import, ast.ImportFrom)) for a in n.names}
+            repo = self
+
+            class T(ast.NodeTransformer):
+                def visit_Call(self, node):
+                    self.generic_visit(node)
+                    if isinstance(node.func, ast.Name) and node.func.id in types:
+                        fields, defaults = types[node.func.id]
+                        if any(isinstance(a, ast.Starred) for a in node.args) or any(k.arg is None for k in node.keywords) \
+                                or len(node.args) > len(fields):
+                            return node
+                        vals = dict(zip(fields, node.args))
+                        for k in node.keywords:
+                            if k.arg not in fields or k.arg in vals:
+                                return node
+                            vals[k.arg] = k.value
+                        elts = []
+                        for f in fields:
+                            if f in vals:
+                                elts.append(vals[f])
+                            elif f in defaults:
+                                elts.append(copy.deepcopy(defaults[f]))
+                            else:
+                                return node
+                        repo.desugared.append((rel, node.func.id, "named tuple"))
+                        return ast.fix_missing_locations(ast.copy_location(ast.Tuple(elts, ast.Load()), node))
+                    return node
+
+                def visit_Attribute(self, node):
+                    self.generic_visit(node)
+                    if isinstance(node.ctx, ast.Load) and node.attr in unique and not (
+                            isinstance(node.value, ast.Name) and (node.value.id in ("self", "cls") or node.value.id in modnames
+                                                                  or node.value.id in types)):
+                        return ast.fix_missing_locations(ast.copy_location(
+                            ast.Subscript(node.value, ast.Constant(unique[node.attr]), ast.Load()), node))
+                    return node
+            for n in m.tree.body:
+                if isinstance(n, (ast.FunctionDef, ast.ClassDef)) and n.name not in types:
+                    T().visit(n)
+
     def _dict_views(self):
         """NORM: other spellings of a read of a dictionary entry are rewritten to `D["k"]`:
         `a, b = itemgetter("k1", "k2")(D)` -> `a = D["k1"]; b = D["k2"]`, and attribute reads `ns.k` of a local
@@ -208,6 +297,39 @@ class Repo:
             ast.fix_missing_locations(node)
             return [node]
 
+        class Exprs(ast.NodeTransformer):
+            """`(a, b) == (c, d)` -> `a == c and b == d` (`!=` -> or) for side-effect-free elements;
+            `"k" in vars(self)` / `"k" in self.__dict__` -> `hasattr(self, "k")`"""
+            def __init__(self, rel, fname):
+                self.rel, self.fname = rel, fname
+
+            def visit_Compare(self, node):
+                self.generic_visit(node)
+                if len(node.ops) != 1:
+                    return node
+                a, b, op = node.left, node.comparators[0], node.ops[0]
+                if isinstance(op, (ast.Eq, ast.NotEq)) and isinstance(a, ast.Tuple) and isinstance(b, ast.Tuple) \
+                        and len(a.elts) == len(b.elts) >= 1 and pure(a) and pure(b) \
+                        and not any(isinstance(x, ast.Starred) for x in a.elts + b.elts):
+                    parts = [ast.Compare(x, [type(op)()], [y]) for x, y in zip(a.elts, b.elts)]
+                    new = parts[0] if len(parts) == 1 else ast.BoolOp(ast.And() if isinstance(op, ast.Eq) else ast.Or(), parts)
+                    repo.desugared.append((self.rel, self.fname, "tuple comparison"))
+                    return ast.fix_missing_locations(ast.copy_location(new, node))
+                if isinstance(op, (ast.In, ast.NotIn)) and isinstance(a, ast.Constant) and isinstance(a.value, str):
+                    obj = None
+                    if isinstance(b, ast.Call) and isinstance(b.func, ast.Name) and b.func.id == "vars" and len(b.args) == 1 \
+                            and isinstance(b.args[0], ast.Name):
+                        obj = b.args[0]
+                    elif isinstance(b, ast.Attribute) and b.attr == "__dict__" and isinstance(b.value, ast.Name):
+                        obj = b.value
+                    if obj is not None and obj.id == "self":
+                        new = ast.Call(ast.Name("hasattr", ast.Load()), [obj, a], [])
+                        if isinstance(op, ast.NotIn):
+                            new = ast.UnaryOp(ast.Not(), new)
+                        repo.desugared.append((self.rel, self.fname, "vars(self) membership"))
+                        return ast.fix_missing_locations(ast.copy_location(new, node))
+                return node
+
         def rewrite(stmts, rel, fname):
             out = []
             for s_ in stmts:
@@ -282,7 +404,8 @@ class Repo:
                     fors.setdefault(x.iter.id, []).append(x)
 
             def shape(e):
-                """-> (oneshot, descending, lo, hi) for range / reversed(range) / iter(those), unit step; None otherwise"""
+                """-> (oneshot, descending, lo, hi) for range / reversed(range) / iter(those), unit step: the values visited
+                are lo..hi-1 (ascending) or hi-1..lo (descending); None otherwise"""
                 one = False
                 if isinstance(e, ast.Call) and isinstance(e.func, ast.Name) and e.func.id == "iter" and len(e.args) == 1 and not e.keywords:
                     one, e = True, e.args[0]
@@ -290,9 +413,22 @@ class Repo:
                 if isinstance(e, ast.Call) and isinstance(e.func, ast.Name) and e.func.id == "reversed" and len(e.args) == 1 \
                         and not e.keywords:
                     one, rev, e = True, True, e.args[0]
-                if not (isinstance(e, ast.Call) and isinstance(e.func, ast.Name) and e.func.id == "range" and 1 <= len(e.args) <= 2
+                if not (isinstance(e, ast.Call) and isinstance(e.func, ast.Name) and e.func.id == "range" and 1 <= len(e.args) <= 3
                         and not e.keywords and all(pure(a) for a in e.args)):
                     return None
+                if len(e.args) == 3:
+                    st_ = e.args[2]
+                    neg = isinstance(st_, ast.UnaryOp) and isinstance(st_.op, ast.USub) and isinstance(st_.operand, ast.Constant) \
+                        and st_.operand.value == 1
+                    pos = isinstance(st_, ast.Constant) and st_.value == 1
+                    if not (neg or pos):
+                        return None
+                    if neg:
+                        # range(a, b, -1) visits a, a-1, ..., b+1: the values b+1 .. a, descending
+                        lo = ast.BinOp(e.args[1], ast.Add(), ast.Constant(1))
+                        hi = ast.BinOp(e.args[0], ast.Add(), ast.Constant(1))
+                        return one, not rev, lo, hi
+                    return one, rev, e.args[0], e.args[1]
                 lo = e.args[0] if len(e.args) == 2 else ast.Constant(0)
                 hi = e.args[1] if len(e.args) == 2 else e.args[0]
                 return one, rev, lo, hi
@@ -331,7 +467,11 @@ class Repo:
                             continue
                         if s_ in fl:
                             if not one:
-                                s_.iter = ast.copy_location(ast.Call(nm("range"), [nm(A), nm(B)], []), s_.iter)
+                                rng_ = ast.Call(nm("range"), [nm(A), nm(B)], []) if not rev else \
+                                    ast.Call(nm("range"), [ast.BinOp(nm(B), ast.Sub(), ast.Constant(1)),
+                                                           ast.BinOp(nm(A), ast.Sub(), ast.Constant(1)),
+                                                           ast.UnaryOp(ast.USub(), ast.Constant(1))], [])
+                                s_.iter = ast.copy_location(rng_, s_.iter)
                                 ast.fix_missing_locations(s_.iter)
                                 out.append(s_)
                                 continue
@@ -356,6 +496,7 @@ class Repo:
             for n in ast.walk(m.tree):
                 if isinstance(n, (ast.FunctionDef, ast.AsyncFunctionDef)):
                     n.body = rewrite(n.body, rel, n.name)
+                    n.body = [Exprs(rel, n.name).visit(b) for b in n.body]
                     iter_locals(n, rel)
                     n.returns = None
                     for a in n.args.args + n.args.kwonlyargs + n.args.posonlyargs + [x for x in (n.args.vararg, n.args.kwarg) if x]:
@@ -846,6 +987,158 @@ class Repo:
                 if isinstance(n, ast.FunctionDef):
                     inline_stmt_helpers(rel, n)
 
+        class RenameLocals(ast.NodeTransformer):
+            def __init__(self, m_):
+                self.m = m_
+
+            def visit_Name(self, node):
+                if node.id in self.m:
+                    return ast.copy_location(ast.Name(self.m[node.id], node.ctx), node)
+                return node
+
+        # (b') nested functions with statements and a value: every `return` in tail position (the last statement, or the
+        #      last statement of each branch of a trailing if/else), not recursive, no loops around a return.  A call
+        #      `yield g(args)` / `x = g(args)` / `g(args)` as a statement with side-effect-free arguments is replaced by
+        #      the body: parameters substituted (constant tests folded), the helper's own locals renamed apart, each tail
+        #      `return E` turned into `yield E` / `x = E` / `E`.
+        def tail_returns_only(body):
+            body = docless(body)
+            if not body:
+                return False
+            for b in body[:-1]:
+                if any(isinstance(x, ast.Return) for x in ast.walk(b)):
+                    return False
+            last = body[-1]
+            if isinstance(last, ast.Return):
+                return last.value is not None
+            if isinstance(last, ast.If) and last.orelse:
+                return tail_returns_only(last.body) and tail_returns_only(last.orelse)
+            return False
+
+        class Fold(ast.NodeTransformer):
+            """constant tests after parameter substitution"""
+            def visit_IfExp(self, node):
+                self.generic_visit(node)
+                if isinstance(node.test, ast.Constant):
+                    return node.body if node.test.value else node.orelse
+                return node
+
+            def visit_If(self, node):
+                self.generic_visit(node)
+                if isinstance(node.test, ast.Constant):
+                    return (node.body if node.test.value else node.orelse) or [ast.Pass()]
+                return node
+
+            def visit_UnaryOp(self, node):
+                self.generic_visit(node)
+                if isinstance(node.op, ast.Not) and isinstance(node.operand, ast.Constant) and isinstance(node.operand.value, bool):
+                    return ast.copy_location(ast.Constant(not node.operand.value), node)
+                return node
+
+        def inline_value_helpers(rel, F):
+            helpers = {}
+            for g in F.body:
+                if isinstance(g, ast.FunctionDef) and not g.decorator_list and not (g.args.vararg or g.args.kwarg or g.args.posonlyargs) \
+                        and tail_returns_only(g.body) \
+                        and not any(isinstance(x, (ast.Yield, ast.YieldFrom, ast.Lambda, ast.Global, ast.While, ast.For, ast.Try, ast.With))
+                                    or (isinstance(x, ast.FunctionDef) and x is not g)
+                                    or (isinstance(x, ast.Call) and isinstance(x.func, ast.Name) and x.func.id == g.name)
+                                    for x in ast.walk(g)):
+                    helpers[g.name] = g
+            if not helpers:
+                return
+
+            def bind_call(g, call):
+                params = [a.arg for a in g.args.args] + [a.arg for a in g.args.kwonlyargs]
+                npos = len(g.args.args)
+                env = {}
+                if len(call.args) > npos or any(isinstance(a, ast.Starred) for a in call.args):
+                    return None
+                for p_, a in zip(params, call.args):
+                    env[p_] = a
+                for k in call.keywords:
+                    if k.arg is None or k.arg not in params or k.arg in env:
+                        return None
+                    env[k.arg] = k.value
+                defaults = dict(zip([a.arg for a in g.args.args][npos - len(g.args.defaults):], g.args.defaults))
+                defaults.update({a.arg: d for a, d in zip(g.args.kwonlyargs, g.args.kw_defaults) if d is not None})
+                for p_ in params:
+                    if p_ not in env:
+                        if p_ not in defaults:
+                            return None
+                        env[p_] = defaults[p_]
+                if not all(pure_arg(a) for a in env.values()):
+                    return None
+                stored = {x.id for x in ast.walk(g) if isinstance(x, ast.Name) and isinstance(x.ctx, (ast.Store, ast.Del))}
+                nonloc = {nm for x in ast.walk(g) if isinstance(x, ast.Nonlocal) for nm in x.names}
+                if stored & set(params):
+                    return None
+                return env, {x: f"{g.name}__{x}" for x in stored - nonloc}
+
+            def expand(g, call, make_tail, site):
+                b = bind_call(g, call)
+                if b is None:
+                    return None
+                env, ren = b
+                body = [Bind(env).visit(RenameLocals(ren).visit(copy.deepcopy(x))) for x in docless(g.body)
+                        if not isinstance(x, ast.Nonlocal)]
+                folded = []
+                for x in body:
+                    r = Fold().visit(x)
+                    folded += r if isinstance(r, list) else [r]
+
+                def tails(stmts):
+                    last = stmts[-1]
+                    if isinstance(last, ast.Return):
+                        stmts[-1] = make_tail(last.value)
+                    elif isinstance(last, ast.If):
+                        tails(last.body)
+                        if last.orelse:
+                            tails(last.orelse)
+                    return stmts
+                if not folded or not tail_returns_only(folded):
+                    return None
+                out = tails(folded)
+                return [reposition(x, site) for x in out]
+
+            def rewrite(stmts):
+                out = []
+                for s_ in stmts:
+                    if isinstance(s_, ast.FunctionDef):
+                        out.append(s_)
+                        continue
+                    call, mk = None, None
+                    if isinstance(s_, ast.Expr) and isinstance(s_.value, ast.Yield) and isinstance(s_.value.value, ast.Call):
+                        call, mk = s_.value.value, (lambda e: ast.Expr(ast.Yield(e)))
+                    elif isinstance(s_, ast.Assign) and len(s_.targets) == 1 and isinstance(s_.value, ast.Call) \
+                            and isinstance(s_.targets[0], (ast.Name, ast.Tuple)):
+                        tg = s_.targets[0]
+                        call, mk = s_.value, (lambda e, tg=tg: ast.Assign([copy.deepcopy(tg)], e))
+                    if call is not None and isinstance(call.func, ast.Name) and call.func.id in helpers:
+                        new = expand(helpers[call.func.id], call, mk, s_)
+                        if new is not None:
+                            repo.inlined_helpers.append((rel, F.name, call.func.id))
+                            out.extend(new)
+                            continue
+                    for fld in ("body", "orelse", "finalbody"):
+                        if hasattr(s_, fld) and isinstance(getattr(s_, fld), list):
+                            setattr(s_, fld, rewrite(getattr(s_, fld)))
+                    out.append(s_)
+                return out
+            F.body = rewrite(F.body)
+            for name, g in helpers.items():
+                used = any(isinstance(x, ast.Name) and x.id == name and isinstance(x.ctx, ast.Load)
+                           for b in F.body if b is not g for x in ast.walk(b))
+                if not used:
+                    F.body = [b for b in F.body if b is not g]
+
+        for rel, m in self.modules.items():
+            if rel.startswith("hrevolve_sequences/"):
+                continue
+            for n in ast.walk(m.tree):
+                if isinstance(n, ast.FunctionDef):
+                    inline_value_helpers(rel, n)
+
         # (c) module-level procedures of the table/sequence builders (no value returned, not recursive, no generator),
         #     called as a statement: the body is placed at the call, its locals renamed apart
         procs = {}
@@ -860,15 +1153,6 @@ class Repo:
                     rec = any(isinstance(x, ast.Call) and isinstance(x.func, ast.Name) and x.func.id == n.name for x in ast.walk(n))
                     if not bad and not rets and not rec and len(docless(n.body)) >= 1:
                         procs[n.name] = n
-
-        class RenameLocals(ast.NodeTransformer):
-            def __init__(self, m_):
-                self.m = m_
-
-            def visit_Name(self, node):
-                if node.id in self.m:
-                    return ast.copy_location(ast.Name(self.m[node.id], node.ctx), node)
-                return node
 
         def inline_procs(rel, F):
             def rewrite(stmts):
